@@ -23,12 +23,14 @@ def run(ctx):
     ctx.run("C02.KEY-FLOW", "R-FLOW", mem.key_flow)
     ctx.run("C12.CHECK-DOMINATES", "R-ORDER", mem.check_dominates)
     ctx.run("C05.LOAD-TOLERANT", "R-ERRDISC", mem.load_tolerant)
+    ctx.run("C07.SIGNATURE", "R-WHO", c07.signature_fresh)
     ctx.run("C07.KINDS", "R-TABLE", c07.kinds)
     ctx.run("C07.LOCKSTEP", "R-DUAL", c07.lockstep)
     ctx.run("C07.POSITIONAL", "R-FLOW", c07.positional)
     ctx.run("C07.KW", "R-ORDER", c07.kw)
     ctx.run("C07.METHOD", "R-ORDER", c07.method)
     ctx.run("C07.IGNORE", "R-ORDER", c07.ignore)
+    ctx.run("C08.PURE", "R-WHO", c08.pure)
     ctx.run("C08.UNORDERED", "R-TABLE", c08.unordered)
     ctx.run("C08.SEED", "R-WHO", c08.seed)
     ctx.run("C08.MEMO", "R-ORDER", c08.memo)
